@@ -156,6 +156,12 @@ func main() {
 			os.Exit(1)
 		}
 		fmt.Println("replay: passes")
+	case "one":
+		// one operation in a process of its own (core.Isolated): a panic in a goroutine of the library under
+		// test ends this process, not the harness
+		outs := make([]string, 1)
+		t.Exec([]string{*opsFile}, outs)
+		fmt.Println("ONE-RESULT " + outs[0])
 	default:
 		fmt.Fprintln(os.Stderr, "unknown command", cmd)
 		os.Exit(2)
